@@ -57,6 +57,10 @@ func (i *IndexReader) FieldDictRange(fieldName string, startTerm []byte, endTerm
 }
 
 func (i *IndexReader) FieldDictPrefix(fieldName string, termPrefix []byte) (index.FieldDict, error) {
+	if len(termPrefix) == 0 {
+		// every term has the empty prefix
+		return i.FieldDict(fieldName)
+	}
 	return i.FieldDictRange(fieldName, termPrefix, termPrefix)
 }
 
